@@ -82,7 +82,7 @@ def c41(ctx):
 
     res = _parallel(one, jobs, n=8)
     tot = dict(pooled=0, fresh=0, kept=0, discarded=0, dropped=0)
-    lines, samples = 0, []
+    lines, samples, garbled = 0, [], []
     for seg, f, v, r in res:
         lines += v["lines"]
         states, trans = states + r.distinct, trans + r.generated
@@ -90,8 +90,9 @@ def c41(ctx):
             tot[k] += v["stats"][k]
         for b in v["bad"]:
             tags = sorted(c["tag"] for c in b["complaints"])
-            if tags == ["harness-write"]:
-                raise Inconclusive("log is not a run of the harness protocol (line %d of %s)" % (b["line"], f))
+            if tags == ["harness-write"]:      # only ever follows a real complaint about the same buffer
+                garbled.append((b["line"], f))
+                continue
             hist = [json.loads(x) for x in open(f)][: b["line"]]
             hist = [e for e in hist if e["b"] == b["ev"]["b"]][-6:]
             ctx.violation("pool cap=%d, %d goroutines: BufPool refuses %s: %s (history of that buffer: %s)" %
@@ -100,8 +101,12 @@ def c41(ctx):
                            "complaints": b["complaints"], "buffer_history": hist, "seed": ctx.seed})
             if len(ctx.violations) >= 10:
                 break
-    for seg in index[:3]:
-        samples.append({k: seg[k] for k in ("cap", "goroutines", "ops", "events", "buffers")})
+    if garbled and not ctx.violations:
+        raise Inconclusive("log is not a run of the harness protocol (line %d of %s)" % garbled[0])
+    for seg in index[::2][:3]:
+        d = {k: seg[k] for k in ("cap", "goroutines", "ops", "events", "buffers")}
+        d["log_excerpt"] = [json.loads(x) for x in open(seg["files"][0]).readlines()[40:46]]
+        samples.append(d)
     samples.append({"hand_outs": tot})
     if not ctx.violations and (tot["pooled"] < 100 or tot["discarded"] < 10 or tot["kept"] < 100):
         raise Inconclusive("run was vacuous: too few re-used / discarded buffers %s" % tot)
@@ -122,4 +127,104 @@ def c41(ctx):
                         "the harness never touches a buffer after Put"]
 
 
-FAMILY = {"C41": c41}
+# ------------------------------------------------------------------------------------------ C31
+C31_DEVS = ["UnsubscribeReturnsTrueForNonSubscriber", "InlineUnsubscribeReturnsTrueForNonSubscriber"]
+
+
+def c31(ctx):
+    # (a) design model: the judge's constraints accept every history of the atomic abstract index
+    #     (exhaustive, 2 processes x 2 calls); a faulty object must be refuted
+    mc = _design(ctx, "TopicIndexConc", "TopicIndexConc_tiny.cfg" if ctx.quick else "TopicIndexConc.cfg", timeout=1500)
+    states, trans = mc.distinct, mc.generated
+    _design(ctx, "TopicIndexConc", "TopicIndexConc_bug.cfg", expect_violation="WitnessAccepted", workers=2)
+    if not ctx.quick:
+        r = _design(ctx, "TopicIndexConc", "TopicIndexConc_bugallowed.cfg", timeout=1500)
+        states, trans = states + r.distinct, trans + r.generated
+    vc = _vcomp(ctx)
+
+    # (b) every sequential history of <= 4 calls, expected returns and final answers from TLC
+    table = ctx.path("gen", "seqhist.json")
+    alpha = "small" if ctx.quick else "big"
+    g = ctx.tlc("GenTopicIndex", "GenTopicIndex.cfg", name="gen_seq", workers=1, heap="12g", timeout=1500,
+                env={"VERIF_ALPHA": alpha, "VERIF_DEPTH": "4", "VERIF_OUT": table})
+    g.require_ok("sequential history table")
+    out = ctx.path("gen", "seqres.json")
+    ctx.run([vc, "topics-seq", table, out], timeout=1500)
+    res = json.load(open(out))
+    rows = res["extra"]["rows"]
+    ctx.log("TLC emitted %d sequential histories (alphabet %s); %d calls/queries replayed, %d differ" %
+            (rows, alpha, res["evaluations"], res["n_mismatch"]))
+    for cname, c in sorted(res["extra"]["classes"].items()):
+        dev = c["first"].get("deviation") or ""
+        if c["first"]["case"] == "return" and dev in C31_DEVS and c["first"]["expected"] == 0 and c["first"]["got"] == 1 \
+                and ctx.known(dev):
+            ctx.notes.append("%s reproduced by %d calls of the TLC table, e.g. %s" % (dev, c["n"], c["first"]["history"]))
+            continue
+        ctx.violation("sequential history: real index differs from TLC (%s, %d cases), first: %s" %
+                      (cname, c["n"], json.dumps(c["first"])), c["first"])
+
+    # (c) concurrent batches, one linearization per batch searched by TLC (depth-first queue)
+    if ctx.quick:
+        nb, gor, per, chunk = 200, 3, 4, 50
+    else:
+        nb, gor, per, chunk = 5000, 5, 6, 250
+    tr = ctx.path("traces", "conc.ndjson")
+    r = ctx.run([vc, "topics-conc", tr, str(nb), str(gor), str(per)], timeout=1500)
+    info = json.loads(r.stdout.strip().splitlines()[-1])
+    allowed = ctx.path("gen", "allowed.json")
+    json.dump([d for d in C31_DEVS if d in ctx.allowed()], open(allowed, "w"))
+    lines = open(tr).read().splitlines()
+    chunks = [lines[i:i + chunk] for i in range(0, len(lines), chunk)]
+
+    def one(ix):
+        rest, base, bad, st, tr_, withdev = chunks[ix], 0, [], 0, 0, 0
+        rnd = 0
+        while rest:
+            fn = ctx.path("traces", "conc_%d_%d.ndjson" % (ix, rnd))
+            open(fn, "w").write("\n".join(rest) + "\n")
+            v, t = _judge(ctx, "TraceTopicIndexConc", "TraceTopicIndexConc.cfg", "lin_%d_%d" % (ix, rnd),
+                          {"VERIF_TRACE": fn, "VERIF_ALLOWED": allowed}, deque=True, timeout=1500)
+            st, tr_, withdev = st + t.distinct, tr_ + t.generated, withdev + v["withdev"]
+            if v["reached"] > len(rest):
+                break
+            bad.append((json.loads(rest[v["reached"] - 1]), v["deepest"]))       # not linearizable
+            rest = rest[v["reached"]:]
+            rnd += 1
+            if len(bad) >= 5:
+                break
+        return bad, st, tr_, withdev
+
+    withdev = 0
+    for bad, st, tr_, wd in _parallel(one, range(len(chunks)), n=8):
+        states, trans, withdev = states + st, trans + tr_, withdev + wd
+        for b, deepest in bad:
+            if len(ctx.violations) < 10:
+                ctx.violation("batch %d (%d goroutines x %d calls): TLC found NO serial order explaining the returned values and the "
+                              "final answers (at most %d of %d calls could be linearized; deviations allowed: %s)" %
+                              (b["batch"], gor, per, deepest, len(b["ops"]), json.load(open(allowed))), b)
+    ctx.log("TLC linearized %d concurrent batches (%d x %d calls, %d%% of call pairs overlapping); %d used an allowed deviation" %
+            (nb, gor, per, 100 * info["overlapping_pairs"] // max(1, info["pairs"]), withdev))
+    if info["batches_with_overlap"] < nb // 4:
+        raise Inconclusive("the goroutines hardly overlapped (%d of %d batches): concurrency was not exercised" % (info["batches_with_overlap"], nb))
+    first = json.loads(lines[0])
+    ctx.cov.update(
+        _level="model_checking", states=states, transitions=trans, exhaustive=False,
+        traces_validated_against_impl=nb, evaluations=res["evaluations"] + nb * gor * per,
+        distinct_nontrivial=res["distinct_nontrivial"] + info["batches_with_overlap"],
+        rule="(a) TopicIndexConc.tla: every history of 2 processes x 2 calls on the atomic abstract index is accepted by the judge's "
+             "constraints (exhaustive), the faulty object is refuted. (b) TLC enumerated all %d sequential histories of <= 4 calls over "
+             "%s (GenTopicIndex) with the value each call must return and the answers of Subscribers x 4 topics / Messages x 8 filters; "
+             "each replayed on a fresh real TopicsIndex. (c) %d random batches of %d goroutines x %d calls (Subscribe, Unsubscribe, "
+             "InlineSubscribe, InlineUnsubscribe, RetainMessage with payload / empty) on filters a, a/b, a/b/c, a/+ and topics a, a/b, a/b/c, "
+             "started together behind a spin barrier, each call stamped before and after; for every batch TLC (TraceTopicIndexConc, depth-first "
+             "queue) searched a serial order consistent with per-goroutine order and real-time precedence that explains all returned values "
+             "and all final answers. distinct_nontrivial = sequential histories of >= 2 calls + batches with at least one overlapping call pair."
+             % (rows, "14 operations" if ctx.quick else "20 operations", nb, gor, per),
+        samples=res["samples"][:3] + [{"batch": first["batch"], "calls": ["g%d %s(%s,%s)=%d [%d,%d]" % (o["g"], o["op"], o["who"] or o["p"], "/".join(o["x"]), o["r"], o["inv"], o["ret"]) for o in first["ops"]]}],
+        sequential_rows=rows, concurrent_batches=nb, overlapping_pairs=info["overlapping_pairs"], call_pairs=info["pairs"],
+        batches_linearized_with_allowed_deviation=withdev)
+    ctx.assumptions += ["queries are made after the batch (the property speaks of answers after the operations); concurrent readers are not judged",
+                        "client subscriptions carry an identifier so that the merged answer of Subscribers names the (client, filter) pairs"]
+
+
+FAMILY = {"C41": c41, "C31": c31}
